@@ -442,6 +442,11 @@ def _run_branch(case, ctx):
     piso = pygaps.PointIsotherm(pressure=list(P_all), loading=list(L_all), branch=marks, **kw)
     which = r.choice(["ads", "des"])
     route = r.choice(["from_pointisotherm", "model_iso", "dataframe"] + (["dataframe-unmarked"] * 2 if case["seed"] % 2 == 0 else []))
+    # one model, or the best of a list of candidates: the branch asked for is the branch every candidate is fitted on
+    marg = name
+    if case["seed"] % 3 == 0 and route in ("from_pointisotherm", "model_iso"):
+        marg = [name, "Henry" if name != "Henry" else "Langmuir"]
+        ctx.count("branch", "best-of-list/" + which)
     if route == "dataframe-unmarked":
         # a recorded cycle without branch marks (adsorption up to the pressure maximum, then desorption), in a table whose row
         # labels are whatever the user's slicing / filtering left
@@ -452,10 +457,10 @@ def _run_branch(case, ctx):
         ctx.count("branch", "unmarked-table/" + ("default-labels" if labels == list(range(n_all)) else "other-labels"))
         res = _call(pygaps.ModelIsotherm, isotherm_data=df, pressure_key="pressure", loading_key="loading", branch=which, model=name, **kw)
     elif route == "from_pointisotherm":
-        res = _call(pygaps.ModelIsotherm.from_pointisotherm, piso, branch=which, model=name)
+        res = _call(pygaps.ModelIsotherm.from_pointisotherm, piso, branch=which, model=marg)
     elif route == "model_iso":
         from pygaps.modelling import model_iso
-        res = _call(model_iso, piso, branch=which, model=name)
+        res = _call(model_iso, piso, branch=which, model=marg)
     else:
         df = piso.data_raw.copy()
         res = _call(pygaps.ModelIsotherm, isotherm_data=df, pressure_key=piso.pressure_key, loading_key=piso.loading_key, branch=which, model=name, **kw)
@@ -466,11 +471,12 @@ def _run_branch(case, ctx):
         return
     ctx.count("branch", route + "/" + which)
     ep, el = (p, l) if which == "ads" else (pd_, ld)
-    rec = [x for x in _LOG if x["outcome"] == "ok"][-1]
-    if len(rec["pressure"]) != len(ep) or not numpy.array_equal(rec["pressure"], ep) or not numpy.array_equal(rec["loading"], el):
-        ctx.violation("fit/branch-data", "the data used for the fit are not exactly the rows of the requested branch", route=route, branch=which, n_used=len(rec["pressure"]), n_branch=len(ep))
+    for rec in ([x for x in _LOG if x["outcome"] == "ok"] if isinstance(marg, list) else [x for x in _LOG if x["outcome"] == "ok"][-1:]):
+        if len(rec["pressure"]) != len(ep) or not numpy.array_equal(rec["pressure"], ep) or not numpy.array_equal(rec["loading"], el):
+            ctx.violation("fit/branch-data", "the data used for the fit are not exactly the rows of the requested branch", route=route, branch=which, n_used=len(rec["pressure"]), n_branch=len(ep), models=marg)
+            break
     # the error identity must also hold for data that arrive in descending order (desorption branch)
-    _check_logged(ctx, res[1], name, ep, el)
+    _check_logged(ctx, res[1], res[1].model.name, ep, el)
     if res[1].branch != which:
         ctx.violation("fit/branch-label", "the model isotherm does not record the requested branch", got=res[1].branch, expected=which)
     if which == "ads":
